@@ -23,7 +23,7 @@ Proof. vm_compute. reflexivity. Qed.
 Lemma d1_conclusion_invalid : ~ mvalid d1_conclusion.
 Proof.
   intro H. specialize (H bool (fun _ _ _ => False) (fun _ _ => False)).
-  set (av := fun (_:N) (_ _ _ _ _:list N) (_:val bool) (_:bool) => False).
+  set (av := fun (_:pat) (_:val bool) (_:bool) => False).
   assert (Hok: av_ok bool av). { unfold av_ok, seq, av. repeat split; intros; tauto. }
   specialize (H av Hok (mkval bool (fun _ => false) (fun _ _ => False)) true).
   simpl in H. discriminate H. exists true. reflexivity.
@@ -43,14 +43,14 @@ Proof. split; reflexivity. Qed.
 
 (** Non-vacuity: a stream satisfying every hypothesis of the soundness theorem: gamma publishes
     the (valid) axiom Existence-shaped pattern?  We use an empty gamma and prove phi0 -> phi0 and its
-    generalisation; accepted under the ghost-restricted guards as well. *)
+    generalisation; . *)
 Definition ok_claim : list N := [137; 0; 137; 0; 5; 30].          (* phi0 -> phi0 *)
 Definition ok_proof : list N :=
   [137; 0; 137; 0; 137; 0; 5; 137; 0; 13; 26; 3; 0; 1; 2;      (* prop2[phi0, phi0->phi0, phi0] *)
    137; 0; 137; 0; 5; 137; 0; 12; 26; 2; 0; 1; 21;             (* prop1[phi0, phi0->phi0]; MP *)
    137; 0; 137; 0; 12; 26; 2; 0; 1; 21; 30].                   (* prop1[phi0, phi0]; MP; Publish *)
 Lemma ok_accepted :
-  (exists st, verify guards_evp [] ok_claim ok_proof = Some st) /\
-  declared_claims guards_evp [] ok_claim = [Imp (phi 0) (phi 0)] /\
-  gamma_axioms guards_evp [] = [].
+  (exists st, verify guards_sound [] ok_claim ok_proof = Some st) /\
+  declared_claims guards_sound [] ok_claim = [Imp (phi 0) (phi 0)] /\
+  gamma_axioms guards_sound [] = [].
 Proof. split; [eexists|split]; vm_compute; reflexivity. Qed.
